@@ -9,6 +9,6 @@ git -C /repo worktree remove --force $W 2>/dev/null
 git -C /repo worktree add --detach $W HEAD >/dev/null 2>&1 || { echo "worktree failed"; exit 2; }
 if ! git -C $W apply $D/patch.diff; then echo "APPLY-FAIL $S"; git -C /repo worktree remove --force $W; exit 2; fi
 cd /verif
-VERIF_REPO=$W timeout 1800 ./check $P --tier $TIER > /tmp/se_$S.log 2>&1; RC=$?
+mkdir -p /tmp/se_evidence /tmp/se_replay; VERIF_EVIDENCE_DIR=/tmp/se_evidence VERIF_REPLAY_DIR=/tmp/se_replay VERIF_REPO=$W timeout 1800 ./check $P --tier $TIER > /tmp/se_$S.log 2>&1; RC=$?
 git -C /repo worktree remove --force $W
 echo "$S property=$P tier=$TIER exit=$RC $(grep -m1 '^VIOLATION' /tmp/se_$S.log) | $(tail -1 /tmp/se_$S.log)"
